@@ -21,6 +21,7 @@ import (
 	"strconv"
 	"strings"
 	"testing"
+	"time"
 
 	"pgregory.net/rapid"
 
@@ -42,6 +43,10 @@ func TestMain(m *testing.M) {
 	os.WriteFile(filepath.Join(dir, "payloads", "DllLdr.x64.bin"), fakeLdr, 0o644)
 	os.Chdir(dir)
 	tsx.Quiet()
+	// the teamserver host's time zone is part of the state a task is prepared in: dates the operator
+	// gives in GMT (kill date) must reach the agent as given whatever the host's zone is. The reference
+	// (timeFmt / civil) does not use the time package's zones at all.
+	time.Local = time.FixedZone("verif+0530", 5*3600+1800)
 	rc := m.Run()
 	os.Chdir("/")
 	os.RemoveAll(dir)
@@ -1145,7 +1150,7 @@ func classify(c Case) core.Class {
 func TestC02(t *testing.T) {
 	core.Run(t, core.Spec[Case]{
 		Property: "C02", Sub: "a",
-		Rule: "1-6 operator Session/Input packages (60 command/sub-command shapes, parameters from classes empty/ascii/NUL-terminated/BMP/astral/70000 chars/path/marker, boundary ints, 8-hex task ids incl. >=2^31, one op in eight reusing the id of an earlier, still outstanding task) for one registered agent (random or all-zero key; one case in five: an agent behind 1-2 SMB hops with ids from the whole range, whose tasks are followed down the chain layer by layer before they are judged) -> real DispatchEvent/TaskPrepare/AddJobToQueue -> check-in through the real listener engine (binaries of about the 30 MiB pipe limit, 1 in 60, are collected over successive check-ins until the no-job reply) -> reply decoded by the Demon-side reference reader with the dispatcher loop condition read from Command.c. Oracle: per task the command id, request id == hex TaskID, every argument as the C handler's ParserGet* sequence reads it, mem-file chunks precede the command and share its id, no parameter marker in clear. Non-trivial: >=1 string/bytes argument or batch >=2; distinct = (first command kind, batch size bucket 1/2/3+, zero-key)",
+		Rule: "1-6 operator Session/Input packages (60 command/sub-command shapes, parameters from classes empty/ascii/NUL-terminated/BMP/astral/70000 chars/path/marker, boundary ints, the host's time zone set to +05:30, 8-hex task ids incl. >=2^31, one op in eight reusing the id of an earlier, still outstanding task) for one registered agent (random or all-zero key; one case in five: an agent behind 1-2 SMB hops with ids from the whole range, whose tasks are followed down the chain layer by layer before they are judged) -> real DispatchEvent/TaskPrepare/AddJobToQueue -> check-in through the real listener engine (binaries of about the 30 MiB pipe limit, 1 in 60, are collected over successive check-ins until the no-job reply) -> reply decoded by the Demon-side reference reader with the dispatcher loop condition read from Command.c. Oracle: per task the command id, request id == hex TaskID, every argument as the C handler's ParserGet* sequence reads it, mem-file chunks precede the command and share its id, no parameter marker in clear. Non-trivial: >=1 string/bytes argument or batch >=2; distinct = (first command kind, batch size bucket 1/2/3+, zero-key)",
 		Gen:   gen, Check: check, Classify: classify,
 		Assumptions: []string{
 			"demonref is a manual transcription of payloads/Demon/src/core/{Parser,Command,Package}.c",
